@@ -98,6 +98,14 @@ def nonIdentParam (prog : NList) : Bool :=
     | .ident t => t.type = .ILLEGAL
     | _ => false) (fun _ => false) prog
 
+/-- "dotdot-after-dot": `a.(..)` (also `a.(..++)`) — the index `..` counts as a single token and is printed without
+parentheses, `a...`, which the lexer reads as `a`, `..`, `.` -/
+def dotdotAfterDot (prog : NList) : Bool :=
+  anyProg (fun _ n => match n with
+    | .index t _ (some (.ident i)) => t.type = .DOT && i.type = .DOTDOT
+    | .index t _ (some (.post _ p)) => t.type = .DOT && p.type = .DOTDOT
+    | _ => false) (fun _ => false) prog
+
 def lineThenSameLine : NList → Bool
   | some (.comment t1 _ _) :: some (.comment t2 p2 n2) :: rest =>
     (t1.type = .LINECOMMENT && p2) || lineThenSameLine (some (.comment t2 p2 n2) :: rest)
@@ -160,11 +168,10 @@ def compactAdjacent (prog : NList) : Bool :=
 
 /-- classes that explain a normal-mode failure, in reporting order (the classes of the defects repaired
 since — number-literal-next-to-dot, line-comment-then-same-line-comment, open-ended-colon-outside-index,
-string-with-abfv-control-byte, illegal-token-as-parameter (parameters are checked by the parser since d623622) — are no longer listed: a failure there is unclassified again) -/
+string-with-abfv-control-byte, unclosed-block-comment-ending-in-star-slash, illegal-token-as-parameter (parameter lists are checked with okParamList since f6d447c), dotdot-after-dot — are no longer listed: a failure there is unclassified again) -/
 def normalClasses (prog : NList) : List String :=
   (if stmtStartsWithPrefixOp prog then ["statement-starts-with-prefix-operator"] else []) ++
   (if commentInExpr prog then ["comment-inside-expression"] else []) ++
-  (if fakeClosedComment prog then ["unclosed-block-comment-ending-in-star-slash"] else []) ++
   (if repeatedAssocOnRight prog then ["repeated-associative-operator-on-the-right"] else [])
 
 /-- classes that explain a compact-mode failure (compact-adjacent-statements was repaired: in compact mode a
